@@ -252,6 +252,14 @@ def case_fluent(col, rng, index):
                 return
 
 
+def gen_with_tail(tid, n_real, tail, *args, **kwargs):
+    """yields n_real ordinary values, then the given tail values (None, 0, '' ... are values like any other)"""
+    for i in range(n_real):
+        yield sym_value(tid, i, args, kwargs)
+    for v in tail:
+        yield v
+
+
 def case_mismatch(col, rng, index):
     """Declared n outputs, generator yields n +- k: the task must fail, for every k."""
     import cascade.low.into as into
@@ -263,7 +271,16 @@ def case_mismatch(col, rng, index):
     if ny < 0:
         ny = 0
     outs = [str(i) for i in range(n)] if n > 1 else None       # one declared output: the default output, the callable is a generator all the same
-    node = Node("gen", outs, (functools.partial(sym_gen, "gen", ny), [], {}))
+    if ny > n and rng.random() < 0.5:
+        # the surplus values are falsy / None: a value is a value, the count is what matters
+        tail = [rng.choice([None, 0, "", False, (), 0.0]) for _ in range(ny - n)]
+        func = functools.partial(gen_with_tail, "gen", n, tail)
+        col.count("count_mismatch_probes_with_falsy_surplus")
+    elif ny < n and ny > 0 and rng.random() < 0.3:
+        func = functools.partial(gen_with_tail, "gen", 0, [rng.choice([None, 0, ""]) for _ in range(ny)])
+    else:
+        func = functools.partial(sym_gen, "gen", ny)
+    node = Node("gen", outs, (func, [], {}))
     outs = outs or ["0"]
     consumer = Node("use", None, (functools.partial(sym_task, "use"), ["input0"], {}), input0=node.get_output(outs[-1]))
     g = Graph([consumer])
